@@ -38,14 +38,15 @@ CHECKS = {
  "C05": dict(engine="E1 typed-read explorer", cat="exploration", ref="DESIGN.md 4 C05",
    technique="stateless deviation-bounded DFS over typed-read answers with tagged references",
    text="Same decision tree as C01; every block reference and string index the reader consumes carries a unique tag that must show up in GetChildRefs/GetPtrs/GetStringRefs, and every "
-        "NiRef/NiStringRef object passing through Sync while writing must be enumerated.",
+        "NiRef/NiStringRef object passing through Sync while writing must be enumerated. Carried-over instances: every type read under version A and again under version B "
+        "(all 756 ordered pairs of the 28 version configurations), written under both; the same write-side membership.",
    note="Inline strings of pre-20.1.0.3 files are not string-table references; references serialised other than through NiBlockRef/NiStringRef would be invisible (none found by grep)."),
  "C06": dict(engine="E2 explicit-state search", cat="model_checking", ref="DESIGN.md 3.6, 4 C06",
    technique="explicit-state breadth-first search over operation histories on the real NifFile/NiHeader with a reference model and canonical-state deduplication",
    text="Breadth-first search over all histories of add/delete/replace/reorder (every permutation)/delete-by-type/prune/sort with every argument over the full index range, on graphs of "
         "<= 4 (quick) / 5 (thorough) blocks to depth 4 / 5; every transition runs on the implementation and is compared with a reference model of an indexed object graph (logical ids, "
-        "types, reference targets, header tables), every reached state is saved and reloaded. A typed phase puts every one of the 304 block types (read from an E1 tape, references "
-        "alternating between two targets) into a 4-block graph, applies six edits and requires the references the block serialises (write hook) to follow the induced renumbering.",
+        "types, reference targets, header tables, per-block size entries stamped distinct before each checked transition), every reached state is saved and reloaded. A typed phase puts every one of the 304 block types (read from an E1 tape, references "
+        "alternating between two targets) into a 4-block graph, applies eight edits (two deletions, root deletion, swap, reverse, sort, a 3-cycle once and twice) and requires the references the block serialises (write hook) to follow the induced renumbering.",
    note="Canonical state = per slot (type, sorted target slots, empty-reference count) + version; block payloads other than references do not influence the operations explored. "
         "Initial graphs: root only, a 4-block graph, and (thorough) a shape graph, in SSE and OB."),
  "C07": dict(engine="E1 corpus + edit menu + independent codec", cat="exploration", ref="DESIGN.md 4 C07",
